@@ -30,8 +30,13 @@ THM_NS = "Earverif.Kernels."
 
 
 class Kernel:
+    """`pid`: property id or tuple of ids the kernel belongs to; `theorems`: the obligations (helper lemmas that the
+    equality rests on are listed too, so that a broken helper is reported against this kernel)."""
+
     def __init__(self, pid, spec, theorems):
-        self.pid, self.spec, self.theorems = pid, spec, list(theorems)
+        self.pids = (pid,) if isinstance(pid, str) else tuple(pid)
+        self.pid = "/".join(self.pids)
+        self.spec, self.theorems = spec, list(theorems)
 
     @property
     def lean_name(self):
@@ -145,15 +150,214 @@ KERNELS = [
         exprs={"self.peak_abs_linear": ("peak", "vec")}), ["has_overloaded_eq_model"]),
 ]
 
+# ---- round 2 -------------------------------------------------------------------------------------------------
+_WR = "ear/fileio/bw64/writer.py"
+_BUF_SEEK = {"self._buffer.seek": dict(state="self._buffer.tell()",
+                                       forms={(1,): "arg", (2, 0): "arg", (2, 1): "old+arg", (2, 2): ("expr+arg", "bufLen", "nat")})}
+KERNELS += [
+    # C09 / C17 — chunk walk of the reader: skip formula and chunk-end test
+    Kernel(("C09", "C17"), KernelSpec(
+        _RD, "Bw64Reader._read_chunks", "read_chunks_step", "(pos chunkSize fileLen : Nat) (isData : Bool)", "Option Nat",
+        names={"chunkSize": ("chunkSize", "nat")},
+        exprs={"self._buffer.tell()": ("pos", "nat"), "self._file_len": ("fileLen", "nat"),
+               "chunkId == b'data'": ("isData", "bool")},
+        effects=_BUF_SEEK, ret_mode="option", select=dict(range=("self._buffer.seek(", None)), outputs=["chunk_end"],
+        notes="range: from the skip `self._buffer.seek(chunkSize + (chunkSize & 1), 1)` to the end of the loop body; "
+              "pos = buffer position after the 8-byte header; result = chunk_end (the next header position), "
+              "none = the ValueError"), ["read_chunks_step_eq_model"]),
+    # C09 / C17 — writer close(): data pad test, RIFF size, RIFF/BW64 decision
+    Kernel(("C09", "C17"), KernelSpec(
+        _WR, "Bw64Writer.close", "close_pad_test", "(dataBytes : Nat)", "Bool",
+        exprs={"self._dataBytesWritten": ("dataBytes", "nat")}, select=dict(value_of="re:if .*self\\._dataBytesWritten"),
+        notes="the test of `if self._dataBytesWritten & 1:`"), ["close_pad_test_eq_model"]),
+    Kernel(("C09", "C17"), KernelSpec(
+        _WR, "Bw64Writer.close", "close_bw64_test", "(riffChunkSize : Nat) (force : Bool)", "Bool",
+        names={"riffChunkSize": ("riffChunkSize", "nat")}, exprs={"self._forceBw64": ("force", "bool")},
+        select=dict(value_of="re:if .*riffChunkSize"),
+        notes="the test of `if(riffChunkSize >= 2**32) or self._forceBw64:`"), ["close_bw64_test_eq_model"]),
+    Kernel(("C09", "C17"), KernelSpec(
+        _WR, "Bw64Writer._calc_riff_chunk_size", "calc_riff_chunk_size", "(pos bufLen : Nat)", "Int",
+        exprs={"self._buffer.tell()": ("pos", "nat")}, effects=_BUF_SEEK,
+        notes="bufLen = length of the buffer (what seek(0, 2) moves to)"), ["calc_riff_chunk_size_eq_model"]),
+    # C11 — ACN channel numbering
+    Kernel("C11", KernelSpec(
+        "ear/core/hoa.py", "to_acn", "to_acn", "(n m : Int)", "Int", names={"n": ("n", "int"), "m": ("m", "int")}),
+        ["to_acn_eq_model"]),
+    Kernel("C11", KernelSpec(
+        "ear/core/hoa.py", "from_acn", "from_acn", "(acn : Nat)", "Nat × Int", names={"acn": ("acn", "nat")},
+        exprs={"np.sqrt(acn).astype(int)": ("(Earverif.Hoa.isqrt acn)", "nat")},
+        notes="np.sqrt(acn).astype(int) is mapped to the model's integer square root (exact for acn < 2^52)"),
+        ["from_acn_eq_model"]),
+    # C02 — latency constants of the object renderer
+    Kernel("C02", KernelSpec(
+        "ear/core/objectbased/renderer.py", "ObjectRenderer.__init__", "decorrelator_delay", "(ntaps : Nat)", "Int",
+        exprs={"decorrelation_filters.shape[0]": ("ntaps", "nat")},
+        select=dict(targets=["decorrelator_delay"], guard=False, inputs=["decorrelation_filters"]),
+        notes="slice: decorrelator_delay = (decorrelation_filters.shape[0] - 1) // 2"), ["decorrelator_delay_eq_model"]),
+    Kernel("C02", KernelSpec(
+        "ear/core/convolver.py", "VariableBlockSizeAdapter.delay", "vbs_delay", "(block_size process_delay : Nat)", "Nat",
+        names={"process_delay": ("process_delay", "nat")}, exprs={"self.block_size": ("block_size", "nat")}),
+        ["vbs_delay_eq_model"]),
+    # C05 / C12 — stereo level law
+    Kernel(("C05", "C12"), KernelSpec(
+        "ear/core/point_source.py", "StereoPanDownmix.handle", "stereo_level", "(front back : α)", "α", scalar="PointSource",
+        names={"front": ("front", "alpha"), "back": ("back", "alpha")}, select=dict(value_of="pv_dmix *= 0.5 **"),
+        notes="the factor of `pv_dmix *= 0.5 ** (0.5 * back / (front + back))`"), ["stereo_level_eq_model"]),
+]
+
+_CV = "ear/core/objectbased/conversion.py"
+_GEOM = "ear/core/geom.py"
+_CV_EXPRS = {"self.el_top": ("P.elTop", "alpha"), "self.el_top_tilde": ("P.elTopTilde", "alpha")}
+_IAR_NAMES = lambda k: {"x": ("x", k), "start": ("start", k), "end": ("end_", k), "tol": ("tol", k)}
+KERNELS += [
+    # C19 — polar <-> Cartesian conversion (written over the Scalar class of Model/Conversion.lean)
+    Kernel("C19", KernelSpec(
+        _CV, "Conversion._map_az_to_linear", "map_az_to_linear", "(left_az right_az azimuth : α)", "α", scalar="Conv",
+        names={"left_az": ("left_az", "alpha"), "right_az": ("right_az", "alpha"), "azimuth": ("azimuth", "alpha")}),
+        ["map_az_to_linear_eq_model"]),
+    Kernel("C19", KernelSpec(
+        _CV, "Conversion._map_linear_to_az", "map_linear_to_az", "(left_az right_az x : α)", "α", scalar="Conv",
+        names={"left_az": ("left_az", "alpha"), "right_az": ("right_az", "alpha"), "x": ("x", "alpha")}),
+        ["map_linear_to_az_eq_model"]),
+    Kernel("C19", KernelSpec(
+        _CV, "Conversion.point_polar_to_cart", "el_to_cart", "(P : Earverif.Conv.Params α) (el d : α)", "α × α", scalar="Conv",
+        names={"el": ("el", "alpha"), "d": ("d", "alpha")}, exprs=_CV_EXPRS,
+        select=dict(range=("if ", "(left_az, left_pos)")), outputs=["z", "r_xy"],
+        notes="range: the elevation warp (first if/else); outputs z, r_xy"), ["el_to_cart_eq_model"]),
+    Kernel("C19", KernelSpec(
+        _CV, "Conversion.point_cart_to_polar", "el_to_polar", "(P : Earverif.Conv.Params α) (z r_xy : α)", "α × α", scalar="Conv",
+        names={"z": ("z", "alpha"), "r_xy": ("r_xy", "alpha")}, exprs=_CV_EXPRS,
+        select=dict(range=("el_tilde = np.degrees(", "return (az, el, d)")), outputs=["el", "d"],
+        notes="range: from el_tilde to the end of the inverse elevation warp; outputs el, d"), ["el_to_polar_eq_model"]),
+    Kernel("C19", KernelSpec(
+        _GEOM, "relative_angle", "relative_angle", "(fuel : Nat) (x y : α)", "α", scalar="Conv", fuel="fuel",
+        names={"x": ("x", "alpha"), "y": ("y", "alpha")},
+        notes="each while loop runs on `fuel` (as the model's); when it runs out the current value is returned"),
+        ["relative_angle_loop1_eq", "relative_angle_loop2_eq", "relative_angle_eq_model"]),
+    Kernel("C19", KernelSpec(
+        _GEOM, "inside_angle_range", "inside_angle_range", "(fuel : Nat) (x start end_ tol : α)", "Bool", scalar="Conv",
+        fuel="fuel", names=_IAR_NAMES("alpha"), notes="the default tol=0.0 is the caller's business"),
+        ["inside_angle_range_loops_eq", "inside_angle_range_eq_model"]),
+    # C13 — the same function against Model/Zone.lean, at its exact instance (Rat)
+    Kernel("C13", KernelSpec(
+        _GEOM, "inside_angle_range", "inside_angle_range_rat", "(fuel : Nat) (x start end_ tol : Rat)", "Bool",
+        fuel="fuel", names=_IAR_NAMES("rat")),
+        ["zone_loop_agree", "inside_angle_range_rat_loops_zone", "inside_angle_range_zone_eq_model"]),
+    # C10 — the same function against Model/DirectSpeakersGeom.lean (its per-loop fuel terms)
+    Kernel("C10", KernelSpec(
+        _GEOM, "inside_angle_range", "inside_angle_range_ds", "(x start end_ tol : Rat)", "Bool",
+        fuel=["(Earverif.DS.loopFuel end_ start)", "(Earverif.DS.loopFuel end_ start)",
+              "(Earverif.DS.loopFuel x start_tol)", "(Earverif.DS.loopFuel x start_tol)"],
+        names=_IAR_NAMES("rat"), notes="loop fuel = the model's loopFuel of the loop variable and its bound"),
+        ["inside_angle_range_ds_loops_eq", "inside_angle_range_ds_eq_model"]),
+]
+
+_TF = "ear/fileio/adm/timing_fixes.py"
+_GCF = "ear/core/objectbased/gain_calc.py"
+
+
+def _tf_exprs(bf):
+    return {
+        "fix": ("true", "true"),
+        "isinstance(%s, AudioBlockFormat)" % bf: ("true", "true"),
+        "isinstance(%s, AudioBlockFormatObjects)" % bf: ("isObjects", "bool"),
+        "%s.jumpPosition.flag" % bf: ("jp", "bool"),
+    }
+
+
+def _tf_il(bf):
+    t = "%s.jumpPosition.interpolationLength" % bf
+    return [Optional_(t, "il", "l", {t: ("l", "rat")})]
+
+
+KERNELS += [
+    # C15 — timing fixes (the fix=True paths; warnings are not part of the value)
+    Kernel("C15", KernelSpec(
+        _TF, "_has_interpolationLength", "has_interpolationLength", "(isObjects jp : Bool) (il : Option Rat)", "Bool",
+        exprs=_tf_exprs("blockFormat"), optionals=_tf_il("blockFormat")), ["has_interpolationLength_eq_model"]),
+    Kernel("C15", KernelSpec(
+        _TF, "_check_blockFormat_duration", "check_duration", "(ra old rb : Rat) (isObjects jp : Bool) (il : Option Rat)",
+        "Rat × Option Rat",
+        exprs=dict(_tf_exprs("bf_a"), **{"bf_a.rtime": ("ra", "rat"), "bf_a.duration": ("old", "rat"), "bf_b.rtime": ("rb", "rat")}),
+        optionals=_tf_il("bf_a"), inline={"_has_interpolationLength": "_has_interpolationLength"},
+        outputs=["bf_a.duration", "bf_a.jumpPosition.interpolationLength"],
+        notes="fix=True; outputs: bf_a.duration and bf_a.jumpPosition.interpolationLength after the call"),
+        ["check_duration_eq_model"]),
+    Kernel("C15", KernelSpec(
+        _TF, "_clamp_blockFormat_end", "clamp_end", "(D r d : Rat) (isObjects jp : Bool) (il : Option Rat)",
+        "Option (Rat × Option Rat)",
+        exprs=dict(_tf_exprs("blockFormat"), **{"blockFormat.rtime": ("r", "rat"), "blockFormat.duration": ("d", "rat"),
+                                                "audioObject.duration": ("D", "rat")}),
+        optionals=_tf_il("blockFormat"), inline={"_has_interpolationLength": "_has_interpolationLength"}, ret_mode="option",
+        outputs=["blockFormat.duration", "blockFormat.jumpPosition.interpolationLength"],
+        notes="fix=True; none = the ValueError; outputs: duration and interpolationLength after the call"),
+        ["clamp_end_eq_model"]),
+    # C01 — more scalar helpers of the extent panners
+    Kernel("C01", KernelSpec(
+        _GCF, "PolarExtentHandler.extent_mod", "extent_mod", "(extent distance : α)", "α", scalar="GainCalc",
+        names={"extent": ("extent", "alpha"), "distance": ("distance", "alpha")},
+        notes="np.interp is the model's `interp` (numpy's C loop)"), ["extent_mod_eq_model"]),
+    Kernel("C01", KernelSpec(
+        "ear/core/objectbased/allo_extent.py", "get_gains", "fade_gains", "(s_eff : α)", "α × α", scalar="GainCalc",
+        names={"s_eff": ("s_eff", "alpha")}, select=dict(range=("s_fade = 0.2", "g_point = ")), outputs=["alpha", "beta"],
+        notes="range: s_fade and the alpha/beta if/else"), ["fade_gains_eq_model"]),
+    # C13 — constants and element-wise tests of the channel lock and of zone exclusion, against the models'
+    # exact (Rat) instance; float literals are their binary64 values there
+    Kernel("C13", KernelSpec(
+        _GCF, "ChannelLockHandlerBase.handle", "lock_tol", "", "Rat", select=dict(value_of="tol = "),
+        float_literals="binary64", notes="the literal 1e-5 (binary64 value)"), ["lock_tol_eq_model"]),
+    Kernel("C13", KernelSpec(
+        _GCF, "ChannelLockHandlerBase.handle", "lock_possible_test", "(d tol : Rat) (maxDistance : Option Rat)", "Bool",
+        names={"distances": ("d", "rat"), "tol": ("tol", "rat")},
+        exprs={"np.ones(len(channel_positions), dtype=bool)": ("true", "true")},
+        optionals=[Optional_("channelLock.maxDistance", "maxDistance", "m", {"channelLock.maxDistance": ("m", "rat")})],
+        select=dict(value_of="possible = "), float_literals="binary64",
+        notes="one element of the array expression (`distances` = that channel's distance; np.ones(...) = True)"),
+        ["lock_possible_test_eq_model"]),
+    Kernel("C13", KernelSpec(
+        _GCF, "ChannelLockHandlerBase.handle", "lock_closest_test", "(dw min_dist tol : Rat)", "Bool",
+        names={"distances_w": ("dw", "rat"), "min_dist": ("min_dist", "rat"), "tol": ("tol", "rat")},
+        select=dict(value_of="all_closest = ", arg_of="np.where"), float_literals="binary64",
+        notes="one element of the argument of np.where"), ["lock_closest_test_eq_model"]),
+    Kernel("C13", KernelSpec(
+        _GCF, "ZoneExclusionHandler.get_excluded", "zone_epsilon", "", "Rat", select=dict(value_of="epsilon = "),
+        float_literals="binary64", notes="the literal 1e-6 (binary64 value)"), ["zone_epsilon_eq_model"]),
+    Kernel("C13", KernelSpec(
+        _GCF, "ZoneExclusionHandler.get_excluded", "zone_cart_test",
+        "(x y z epsilon minX maxX minY maxY minZ maxZ : Rat)", "Bool",
+        names={"epsilon": ("epsilon", "rat")},
+        exprs={"self.positions[:, 0]": ("x", "rat"), "self.positions[:, 1]": ("y", "rat"), "self.positions[:, 2]": ("z", "rat"),
+               "zone.minX": ("minX", "rat"), "zone.maxX": ("maxX", "rat"), "zone.minY": ("minY", "rat"),
+               "zone.maxY": ("maxY", "rat"), "zone.minZ": ("minZ", "rat"), "zone.maxZ": ("maxZ", "rat")},
+        select=dict(value_of="excluded |= (self.positions"), float_literals="binary64",
+        notes="one element (loudspeaker) of the Cartesian zone mask"), ["zone_cart_test_eq_model"]),
+    Kernel("C13", KernelSpec(
+        _GCF, "ZoneExclusionHandler.get_excluded", "zone_polar_test",
+        "(el epsilon minEl maxEl : Rat) (inAz : Bool)", "Bool",
+        names={"epsilon": ("epsilon", "rat")},
+        exprs={"self.elevations": ("el", "rat"), "zone.minElevation": ("minEl", "rat"), "zone.maxElevation": ("maxEl", "rat"),
+               "[inside_angle_range(az, zone.minAzimuth, zone.maxAzimuth, tol=epsilon) for az in self.azimuths]": ("inAz", "bool")},
+        select=dict(value_of="excluded |= (self.elevations"), float_literals="binary64",
+        notes="one element of the polar zone mask; inAz = that loudspeaker's inside_angle_range(...) result"),
+        ["zone_polar_test_eq_model"]),
+]
+
 # Looked at and not registered: the translator refuses them on the unchanged tree (kept here so that the
 # self-test shows the refusal message).
 NOT_REGISTERED = [
     ("C04", KernelSpec("ear/cmdline/render_file.py", "OfflineRenderDriver.output_gain_linear", "output_gain_linear",
                        "(db : Rat)", "Rat", exprs={"self.output_gain_db": ("db", "rat")}),
      "10.0 ** (db / 20.0): exponentiation with a non-literal exponent is not rational arithmetic"),
+    ("C13", KernelSpec("ear/core/objectbased/gain_calc.py", "AlloChannelLockHandler.get_weighted_distances", "weighted_distances",
+                       "(p c : List Rat)", "Rat", names={"position": ("p", "vec:rat"), "channel_positions": ("c", "vec:rat")}),
+     "np.array([1.0 / 16, 4, 32]) and np.sum(..., axis=1): array construction / axis reductions are outside the whitelist "
+     "(the model's distW writes the three terms out by hand)"),
+    ("C08", KernelSpec("ear/fileio/adm/generate_ids.py", "generate_ids", "generate_ids", "", "Unit"),
+     "for loops over enumerate(..., 0x1001) with str.format and attribute assignment to every element: not a scalar kernel "
+     "(start values and format widths would be a regenerated table, not a translated def)"),
 ]
 
-ALL = [(k.pid, k.spec.file, k.spec.qualname, k.spec.lean_name, list(k.theorems)) for k in KERNELS]
+ALL = [(p, k.spec.file, k.spec.qualname, k.spec.lean_name, list(k.theorems)) for k in KERNELS for p in k.pids]
 
 HEADER = """/-
 GENERATED on every run by harness/kernels.py (translator: harness/translate.py) from the Python SOURCE of the
@@ -165,9 +369,13 @@ Floats are exact rationals/reals (as in the models).
 import Earverif.Model.GainCalc
 import Earverif.Model.Bw64Cursor
 import Earverif.Model.Timeline
+import Earverif.Model.Conversion
+import Earverif.Model.PointSource
+import Earverif.Model.DirectSpeakersGeom
+import Earverif.Model.Hoa
+import Earverif.Model.ChannelLock
 set_option linter.unusedVariables false
 namespace Earverif.Gen
-open Earverif.GainCalc (Scalar)
 open Earverif.Cursor (Cfg)
 open Earverif.Timeline (Ext)
 
@@ -190,7 +398,7 @@ def _render_one(k, repo):
     sp = k.spec
     sha = None
     try:
-        sha = function_source(os.path.join(repo, sp.file), sp.qualname)[2]
+        sha = function_source(os.path.join(repo, sp.file), sp.qualname)[2]  # also when the translation is refused
         text, sha = translate(sp, repo)
         reason = None
     except Refuse as e:
@@ -252,7 +460,7 @@ def _lean_errors(relpath, text=None):
     return errs, out
 
 
-def _def_ranges(text, names, keyword="def"):
+def _def_ranges(text, names, keyword="def", loops=False):
     """{name: (first line, last line)} of the top-level `def name` blocks (up to the next block comment/def)."""
     lines = text.split("\n")
     starts = []
@@ -263,7 +471,7 @@ def _def_ranges(text, names, keyword="def"):
     res = {}
     for j, (i, n) in enumerate(starts):
         end = starts[j + 1][0] - 1 if j + 1 < len(starts) else len(lines)
-        if n in names:
+        if n in names or (loops and re.sub(r"_loop\d+$", "", n) in names):
             res[n] = (i, end)
     return res
 
@@ -279,11 +487,12 @@ def extract(typecheck=True):
             errs, raw = _lean_errors(None, text)
             if not errs:  # None (tool unavailable: leave as is, the build will tell) or no errors
                 break
-            ranges = _def_ranges(text, {k.lean_name for k in KERNELS})
+            ranges = _def_ranges(text, {k.lean_name for k in KERNELS}, loops=True)
             bad = {}
             for line, msg in errs:
                 for n, (a, b) in ranges.items():
                     if a <= line <= b:
+                        n = re.sub(r"_loop\d+$", "", n)  # auxiliary loop defs belong to their kernel
                         bad.setdefault(n, " ".join(x.strip() for x in msg.split("\n"))[:300])
             if not bad:
                 break
@@ -299,13 +508,13 @@ def refusals():
 
 
 def obligations(pid):
-    th = [THM_NS + t for k in KERNELS if k.pid == pid for t in k.theorems]
+    th = [THM_NS + t for k in KERNELS if pid in k.pids for t in k.theorems]
     return (PROPS_MODULE, th) if th else None
 
 
 def status():
     """Elaborate Props/Kernels.lean against the built Gen/Kernels (build `Earverif.Gen.Kernels` first) and report
-    per theorem: {theorem short name: None if it checks, else first error line}.  Unlike a failed `lake build` this
+    per theorem: {theorem name (short and fully qualified): None if it checks, else first error line}.  Unlike a failed `lake build` this
     says which kernels' equalities broke and which still hold.  Returns None if the file could not be elaborated."""
     rel = os.path.join("Earverif", "Props", "Kernels.lean")
     errs, raw = _lean_errors(rel)
@@ -327,6 +536,10 @@ def status():
             owner = "<outside the registered theorems, line %d>" % line
         if res.get(owner) is None:
             res[owner] = msg.split("\n")[0][:300]
+    # keys: the short theorem names and the fully qualified ones (what `obligations` returns)
+    for n in list(res):
+        if not n.startswith("<"):
+            res[THM_NS + n] = res[n]
     return res
 
 
@@ -349,8 +562,8 @@ def check():
         "gen_builds": ok_gen,
         "props_build": ok,
         "first_error": None if ok else common._first_error(out),
-        "failing": None if st is None else sorted(t for t, e in st.items() if e is not None),
-        "detail": None if st is None else {t: e for t, e in st.items() if e is not None},
+        "failing": None if st is None else sorted(t for t, e in st.items() if e is not None and not t.startswith(THM_NS)),
+        "detail": None if st is None else {t: e for t, e in st.items() if e is not None and not t.startswith(THM_NS)},
         "refused": refusals(),
         "stubs": stubs,
         "extract_s": round(t1 - t0, 2),
